@@ -145,6 +145,22 @@ func (C12) Generate(c *Ctx, r *Rand, index int) *Scenario {
 		sc.Files = append(sc.Files, File{Name: "extra.yaml", Docs: []string{g.Doc(DocID(r, 1, 0)).YAML()}, Mode: 0644})
 		argv = append(argv, "extra.yaml")
 	}
+	if !frontMatter && rs.Chance(1, 12) {
+		// the target is reached through a relative symbolic link from another directory, and a file with
+		// the name of the link's destination also exists where yq is started: only the named path may change
+		linkDest := "base.yaml"
+		sc.Files = append(sc.Files,
+			File{Name: "conf/" + linkDest, Docs: sc.Files[0].Docs, Mode: sc.Files[0].Mode},
+			File{Name: linkDest, Data: Bytes("decoy: true\n"), Mode: 0644})
+		sc.Files[0] = File{Name: "conf/current.yaml", Symlink: linkDest}
+		for k, a := range argv {
+			if a == target {
+				argv[k] = "conf/current.yaml"
+			}
+		}
+		target = "conf/current.yaml"
+		sc.Meta["via_symlink"] = true
+	}
 	sc.Argv = argv
 	sc.Meta["expr"] = expr
 	sc.Meta["family"] = exprE.Family
@@ -399,6 +415,13 @@ func (C12) Judge(c *Ctx, sc *Scenario) []Violation {
 		mode = 0644
 	}
 	old := FileState{Mode: mode, Data: tf.Bytes()}
+	if tf.Symlink != "" {
+		// what the path holds is what the link's destination holds
+		if dest := sc.File("conf/" + tf.Symlink); dest != nil {
+			old = FileState{Mode: dest.Mode, Data: dest.Bytes()}
+			mode = dest.Mode
+		}
+	}
 	// NEW := stdout of the same command without -i (fault-free, fresh process)
 	ref := c.Ref(withoutInplace(sc.Argv), sc.Files, sc.Stdin)
 	var neu *FileState
@@ -477,6 +500,10 @@ func (C12) Judge(c *Ctx, sc *Scenario) []Violation {
 		}
 	}
 	cur, present := out.Files[target]
+	if present && tf.Symlink != "" && bytes.HasPrefix(cur.Data, []byte("-> ")) {
+		// still the link: what the path holds is what its destination holds
+		cur, present = out.Files["conf/"+strings.TrimPrefix(string(cur.Data), "-> ")]
+	}
 	state := classifyState(cur, present, &old, neu)
 	modeTag := "same"
 	if present && cur.Mode != old.Mode {
@@ -557,6 +584,24 @@ func (C12) Judge(c *Ctx, sc *Scenario) []Violation {
 			}
 		}
 		c.Stats.Add("crash_points_decided_by_snapshot", int64(nb))
+	}
+	// O12.5 frame: nothing but the target changes (other inputs, a link's destination, same-named files elsewhere)
+	for _, f := range sc.Files {
+		if f.Name == target || f.Name == "-" || f.Missing || f.Dir || f.Symlink != "" {
+			continue
+		}
+		if tf.Symlink != "" && f.Name == "conf/"+tf.Symlink {
+			continue // the destination of the link: the statement is about the named path
+		}
+		got, ok := out.Files[f.Name]
+		fmode := f.Mode
+		if fmode == 0 {
+			fmode = 0644
+		}
+		if !ok || !bytes.Equal(got.Data, f.Bytes()) || got.Mode != fmode {
+			add("O12.5", "frame file="+f.Name, fmt.Sprintf("yq -i %s changed another file: %s is now %s", target, f.Name, got))
+			break
+		}
 	}
 	// O12.4: front matter appendix preserved byte for byte
 	if containsArg(sc.Argv, "--front-matter=process") && present && (state == "NEW" || state == "BOTH") {
